@@ -12,7 +12,7 @@ import re
 from collections import defaultdict
 from lib.facts import find, walk, is_node, path_of, render, render_pat, last_seg
 from lib import fxn as X
-from lib.grammar import Grammar, show_term
+from lib.grammar import Grammar, show_term, WS
 from lib.emit import Emitter, flatten, show
 
 
@@ -105,8 +105,31 @@ def parser_sequence(G, sk, result, depth=0):
             for f in fields:
                 seq.append(("F", f, optional, term))
         else:
-            seq.append(("D", G.lang(term), show_term(term)))
+            seq.append(("D", G.lang(term), show_term(term), term))
     return seq
+
+
+def ws_capable(G, term, depth=0):
+    """may this grammar term consume white space?  Unknown terms answer True (the tightness rule then stays silent)."""
+    k = term[0]
+    if k == "nt":
+        if term[1] in WS:
+            return True
+        sk = G.skeleton(term[1]) if depth < 4 else None
+        if sk is None or not sk.steps:
+            return depth >= 4 or term[1] not in G.fns
+        return any(ws_capable(G, t, depth + 1) for _, t, _ in sk.steps)
+    if k in ("opt", "star", "plus"):
+        return ws_capable(G, term[1], depth + 1)
+    if k == "sep":
+        return ws_capable(G, term[1], depth + 1) or ws_capable(G, term[2], depth + 1)
+    if k in ("seq", "alt"):
+        return any(ws_capable(G, t, depth + 1) for t in term[1])
+    if k == "lit":
+        return bool(re.search(r"\s", term[1]))
+    if k == "empty":
+        return False
+    return True
 
 
 def emitter_sequence(flat, out=None):
@@ -260,6 +283,15 @@ def walk_parts(parts):
                     yield from walk_parts(br)
 
 
+def walk_flat(flat):
+    """every item of a flattened template, lists and optional groups opened up"""
+    for x in flat:
+        yield x
+        for y in x[1:]:
+            if isinstance(y, list) and y and isinstance(y[0], tuple):
+                yield from walk_flat(y)
+
+
 def nospace(s):
     return re.sub(r"\s+", "", s)
 
@@ -267,6 +299,8 @@ def nospace(s):
 def run(F, rep, fm, reach):
     rep.rule("C08-R7", "struct emitters write the node's fields in the order the node's parser reads them")
     rep.rule("C08-R8", "the literal text an emitter writes around the fields is accepted by the parser's delimiter parsers at that place (whitespace aside)")
+    rep.rule("C08-R13", "tight productions: an emitter writes white space between two fields only where some parser step between those fields can consume white space "
+                        "(a complex literal `3+2i` printed as `3 + 2i` re-parses as a formula)")
     rep.rule("C08-R9", "list fields are traversed in element order (not inside a loop over something else)")
     items = F.syn("mech_syntax.lib")
     G = Grammar(items)
@@ -274,6 +308,7 @@ def run(F, rep, fm, reach):
     for n in G.fns:
         byret[G.ret_type(n)].append(n)
     n7 = n8 = n9 = 0
+    n13 = [0]
     undecided = []
     templates = {}
     for it in fm:
@@ -287,6 +322,50 @@ def run(F, rep, fm, reach):
         except Exception:
             pass
     ctx = Contexts(templates)
+    # ---- R13 (token nodes): a node all of whose parsers are white-space free (no white-space parser anywhere below them) is ONE token of the grammar; its emitter writes no white space,
+    # neither literally nor through a helper emitter it calls with a constant argument
+    def parser_ws_free(name, seen, depth=0):
+        if name in WS:
+            return False
+        if name in seen or depth > 6 or name not in G.fns:
+            return True
+        seen.add(name)
+        for x in walk(G.fns[name]["body"]):
+            if x[0] == "path":
+                n_ = x[1].split("::")[-1]
+                if n_ in WS:
+                    return False
+                if n_ in G.fns and n_ != name and not parser_ws_free(n_, seen, depth + 1):
+                    return False
+        return True
+    n_tok = 0
+    for it in fm:
+        if it["name"] not in templates:
+            continue
+        params = [(p_[0][1], p_[1]) for p_ in it["sig"]["inputs"] if is_node(p_[0]) and p_[0][0] == "pident"]
+        if not params:
+            continue
+        T = re.sub(r"^&(mut )?", "", params[0][1]).replace(" ", "")
+        ps_ = byret.get(T, [])
+        if not ps_ or not all(parser_ws_free(p_, set()) for p_ in ps_):
+            continue
+        n_tok += 1
+        def all_parts(parts):
+            for q in walk_parts(parts):
+                yield q
+                if q[0] == "list":
+                    yield from all_parts(q[2])
+        wrote = [y[1] for y in all_parts(templates[it["name"]]) if y[0] == "lit" and re.search(r"[ \t]", y[1])]
+        for y in all_parts(templates[it["name"]]):
+            if y[0] == "unk":
+                mm_ = re.match(r"^self\.(\w+)$", str(y[1]))
+                if mm_ and mm_.group(1) in templates and any(z[0] == "lit" and re.search(r"[ \t]", z[1]) for z in all_parts(templates[mm_.group(1)])):
+                    wrote.append("<%s>" % y[1])
+        rep.check(not wrote, "C08-R13", "token:%s" % it["name"] if not wrote else "token:%s:writes-space" % it["name"],
+                  "Formatter::%s prints a %s, which the grammar reads as one white-space-free token (parsers %s), but writes blanks (%s): the text re-parses as several tokens "
+                  "(`3+2i` printed as `3 + 2i` is a formula, not a complex literal)" % (it["name"], T, ps_, wrote), "src/syntax/src/formatter.rs (expanded line %d)" % it["line"],
+                  sample={"emitter": it["name"], "node": T, "parsers": ps_})
+    rep.floor("C08-R13", "token-node emitters examined", n_tok, 3)
     for it in fm:
         if it["name"] not in reach or "html" in it["name"]:
             continue
@@ -424,7 +503,26 @@ def run(F, rep, fm, reach):
                 prev = "<start>"
                 for (pf, pg), (ef, eg) in pairs:
                     where = "%s..%s" % (prev, pf)
+                    prev_field = prev
                     prev = pf
+                    # ---- R13 tight productions: white space written between two fields where no parser step between them accepts any
+                    if prev_field != "<start>" and pf != "<end>" and pg and all(x[1] is not None for x in pg):
+                        def callee_ws(why):
+                            mm_ = re.match(r"^self\.(\w+)$", str(why))
+                            if not mm_ or mm_.group(1) not in templates:
+                                return False
+                            return any(y[0] == "L" and re.search(r"\s", y[1]) for y in flatten(templates[mm_.group(1)]))
+                        wrote = [x[1] for x in eg if x[0] == "L" and re.search(r"\s", x[1])] + ["<%s>" % x[1] for x in eg if x[0] == "U" and callee_ws(x[1])]
+                        if wrote:
+                            n13[0] += 1
+                            fterm = {x[1]: x[3] for x in pseq if x[0] == "F" and len(x) > 3}
+                            # white space may also be consumed by the parser of the neighbouring FIELD itself (an operator parser that skips blanks around its tag)
+                            tight = not any(ws_capable(G, x[3]) for x in pg) and not any(f_ in fterm and ws_capable(G, fterm[f_]) for f_ in (prev_field, pf))
+                            rec13 = ("C08-R13", "%s:%s:tight" % (tag, where) if not tight else "%s:%s:writes-space" % (tag, where),
+                                     "Formatter::%s writes white space (%s) between `%s` and `%s`, but the parser %s() reads `%s` there with no white-space parser in between: the formatted text "
+                                     "no longer parses as this node (e.g. `3+2i` printed as `3 + 2i` is a formula)" % (it["name"], wrote, prev_field, pf, p, " ".join(x[2] for x in pg)),
+                                     {"emitter": it["name"], "parser": p, "gap": where, "written": wrote})
+                            (bads if tight else oks).append(rec13)
                     if any(x[0] == "U" for x in eg) or any(x[1] is None for x in pg):
                         continue
                     # every combination of optional emitter literals must be acceptable
@@ -541,5 +639,6 @@ def run(F, rep, fm, reach):
     rep.floor("C08-R12", "comma-separated expression lists", n12, 4)
     rep.floor("C08-R7", "emitter/parser pairs compared on field order", n7, 25)
     rep.floor("C08-R8", "delimiter gaps compared", n8, 60)
+    rep.floor("C08-R13", "gaps where the emitter writes white space between two fields", n13[0], 10)
     for u in undecided[:80]:
         rep.note("grammar_agreement_undecided", u)
